@@ -179,3 +179,90 @@ _NUM_RE = re.compile(br'\d+')
 def map_numbers(text, mapping):
     """Replace every run of digits in text by its image under mapping (dict int->int)."""
     return _NUM_RE.sub(lambda m: b'%d' % (mapping.get(int(m.group(0)), int(m.group(0))),), text)
+
+
+# ---------------------------------------------------------------------------
+# two-phase history BFS (variant of mc.bfs.explore for expensive state invariants)
+
+def _expand_chunk2(args):
+    expand, hists = args
+    return [(h, expand(h)) for h in hists]
+
+
+def _check_chunk2(args):
+    check, hists = args
+    return [(h, check(h)) for h in hists]
+
+
+def explore_checked(expand, check, roots, max_depth, part, label='bfs', time_budget=None):
+    """Level-synchronous BFS over operation histories on the real objects.
+
+    expand(hist) -> [(op, key, viols, info, stop)]   cheap: replays hist, applies every op, returns the
+                    canonical key of each successor, transition-level violations, an outcome label and
+                    whether the successor must not be expanded (cap);
+    check(hist)  -> [(vkey, what)]                   the full state invariants, evaluated exactly once per
+                    canonical state (on the first history that reaches it), in parallel.
+    A state whose invariants fail is reported and not expanded.  Same bookkeeping as mc.bfs.explore."""
+    import time
+    from . import core
+    t0 = time.time()
+    seen = set()
+    frontier = [tuple(r) for r in roots]
+    depth = 0
+    capped = False
+    pool = core.pool() if core.NCPU > 1 else None
+
+    def pmap(fn, arg0, items):
+        size = max(1, min(32, len(items) // (core.NCPU * 4) or 1))
+        jobs = [(fn, (arg0, items[i:i + size])) for i in range(0, len(items), size)]
+        if pool is not None and len(jobs) > 1:
+            return pool.imap_unordered(core._call, jobs)
+        return (core._call(j) for j in jobs)
+
+    while frontier and depth < max_depth:
+        fresh = []
+        stops = set()
+        ntrans = 0
+        for res in pmap(_expand_chunk2, expand, frontier):
+            for hist, succs in res:
+                for op, key, viols, info, stop in succs:
+                    ntrans += 1
+                    for vkey, what in viols:
+                        part.violation(vkey, what, {'history': list(hist) + [op]})
+                    if info:
+                        part.classes.add(info)
+                        part.outcome(info)
+                    if key is None or key in seen:
+                        continue
+                    seen.add(key)
+                    newh = hist + (op,)
+                    fresh.append(newh)
+                    if stop or viols:
+                        stops.add(newh)
+        part.transitions += ntrans
+        part.traces += ntrans
+        part.n += ntrans
+        fresh.sort(key=repr)
+        bad = set()
+        for res in pmap(_check_chunk2, check, fresh):
+            for hist, viols in res:
+                part.traces += 1
+                for vkey, what in viols:
+                    part.violation(vkey, what, {'history': list(hist)})
+                if viols:
+                    bad.add(hist)
+        for h in fresh[:2]:
+            if len(part.samples) < 2 and len(h) >= 2:
+                part.samples.append({'history': list(h)})
+        frontier = [h for h in fresh if h not in stops and h not in bad]
+        depth += 1
+        if time_budget and time.time() - t0 > time_budget:
+            capped = True
+            break
+    fixed_point = not frontier
+    part.states += len(seen)
+    part.extra[label + '_depth'] = depth
+    part.extra[label + '_fixed_point'] = int(fixed_point)
+    part.extra[label + '_capped'] = int(capped)
+    return {'depth': depth, 'fixed_point': fixed_point, 'capped': capped, 'states': len(seen),
+            'unexpanded_frontier': len(frontier)}
